@@ -24,6 +24,9 @@ def run(model, rep, tier):
     rep.explanation = EXPLANATION
     A = rep.attempt
     A(reader_calls, model, rep)
+    A(reader_paths, model, rep)
+    A(writer_partition, model, rep)
+    A(root_paths, model, rep)
     A(system_block, model, rep)
     A(version_gate, model, rep)
 
@@ -283,3 +286,210 @@ def version_gate(model, rep):
     if not ok:
         rep.violation("R4", "system.System.save", "%s:%d" % (rel, save.lineno), "the file is not stamped with the running version", "version stamp")
     rep.instance("R4", "system.System.save version stamp", "%s:%d" % (rel, save.lineno), ok)
+
+
+KIND_TYPE = {"Converter": "CONVERTER", "LinReg": "LINREG", "RLoss": "SLOSS", "VLoss": "SLOSS", "PLoad": "LOAD", "RLoad": "LOAD", "ILoad": "LOAD",
+             "PSwitch": "PSWITCH", "Rectifier": "RECTIFIER"}
+KEY_DISCR = {"RLoss": {"rs": True}, "VLoss": {"rs": False}, "PLoad": {"pwr": True}, "RLoad": {"pwr": False, "rs": True}, "ILoad": {"pwr": False, "rs": False}}
+
+
+class _RdHooks:
+    def call(self, sm, node, fname, args, kwargs, st):
+        from ..summ import Sym, vkey
+        if fname in KINDS:
+            st.events.append(("ctor", fname, tuple(args), dict(kwargs), node.lineno))
+            return Sym(("ctor", fname, node.lineno))
+        return None
+
+
+def reader_paths(model, rep):
+    """path-accurate reading of the child loop of from_file: which constructor is reached under which saved type / keys,
+    and where each keyword value comes from on that path"""
+    from ..summ import Summarizer, State, Sym, vkey, show_value
+    from ..guards import Ctx, literals
+    from ..terms import Unsupported
+    rel = model.rel("system")
+    fn = model.own_method("System", "from_file")
+    # the innermost loop that builds child components
+    inner = None
+    for lp in ast.walk(fn):
+        if isinstance(lp, ast.For) and any(isinstance(c, ast.Call) and isinstance(c.func, ast.Name) and c.func.id == "Converter" for c in ast.walk(lp)):
+            if inner is None or any(x is lp for x in ast.walk(inner)):
+                inner = lp
+    if inner is None or not isinstance(inner.target, ast.Name):
+        raise AnalysisError("from_file: child loop not found")
+    C = inner.target.id
+    sm = Summarizer(_RdHooks(), Ctx())
+    env = {C: Sym(("name", "REC")), "self": Sym(("name", "self"))}
+    outer = getattr(inner, "_parent", None)
+    while outer is not None and not isinstance(outer, ast.For):
+        outer = getattr(outer, "_parent", None)
+    if outer is not None and isinstance(outer.target, ast.Name):
+        env[outer.target.id] = Sym(("name", "PARENTKEY"))
+    try:
+        leaves = sm.summarize_block(inner.body, env)
+    except Unsupported as e:
+        raise AnalysisError("from_file child loop: %s" % e)
+    REC = Sym(("name", "REC"))
+    PARAMS = Sym(("sub", REC, "params"))
+    seen = set()
+    ok_all = True
+    for lf in leaves:
+        ctors = [e for e in lf.events if e[0] == "ctor"]
+        lits = {}
+        for g in lf.guards:
+            literals(g, True, lits)
+        types_true = [k for k, v in lits.items() if v and k[0] == "EQ" and Sym(("sub", REC, "type")) in k[1:]]
+        tname = None
+        for k in types_true:
+            tname = [x for x in k[1:] if isinstance(x, str)][0]
+        keys = {}
+        for k, v in lits.items():
+            if k[0] == "IN" and k[2] == PARAMS and isinstance(k[1], str):
+                keys[k[1]] = v
+        if not ctors:
+            continue
+        if len(ctors) != 1:
+            raise AnalysisError("from_file: a path builds %d components" % len(ctors))
+        _, kind, args, kwargs, line = ctors[0]
+        seen.add(kind)
+        where = "%s:%d" % (rel, line)
+        construct = "system.System.from_file -> %s(...)" % kind
+        ok = True
+        if tname != KIND_TYPE.get(kind):
+            ok = False
+            rep.violation("R1", construct, where, "%s is built for a record saved with type %s, expected %s" % (kind, tname, KIND_TYPE.get(kind)), "type branch %s<-%s" % (kind, tname))
+        for key, want in KEY_DISCR.get(kind, {}).items():
+            if keys.get(key) is not want:
+                ok = False
+                rep.violation("R1", construct, where, "%s is chosen %s the saved key '%s' (%s), expected: key %s" % (kind, "although" if keys.get(key) is not None else "without testing", key, keys.get(key), "present" if want else "absent"), "key branch %s %s" % (kind, key))
+        # keyword provenance on this path
+        owner, init, kws = ctor_sig(model, kind)
+        for kw, val in kwargs.items():
+            want_key = kw
+            sect = Sym(("sub", REC, "limits")) if False else None
+            good = isinstance(val, Sym) and val.key[0] == "call" and val.key[1] in ("_get_opt", "_get_mand") and len(val.key[2]) >= 2 and val.key[2][1] == want_key \
+                and val.key[2][0] == (REC if kw == "limits" else PARAMS)
+            if not good:
+                ok = False
+                rep.violation("R1", construct, where, "on this path keyword '%s' is fed by %s, expected the saved %s '%s'" % (kw, show_value(val)[:90], "record field" if kw == "limits" else "parameter", want_key), "path kw %s <- %s" % (kw, show_value(val)[:60]))
+        if not args or not (isinstance(args[0], Sym) and args[0].key[0] == "call" and args[0].key[1] == "_get_mand" and args[0].key[2][:2] == (PARAMS, "name")):
+            ok = False
+            rep.violation("R1", construct, where, "the component is not named after its saved name", "path name")
+        # the component is added under the key it was written under
+        adds = [e for e in lf.events if e[0] == "call" and e[1].endswith(".add_comp")]
+        if len(adds) != 1 or not adds[0][2] or adds[0][2][0] != Sym(("name", "PARENTKEY")):
+            ok = False
+            rep.violation("R1", construct, where, "the component is not added under the parent key it was saved under", "path parent")
+        ok_all = ok_all and ok
+        rep.instance("R1", construct + " reached under the right saved type / keys", where, ok)
+    missing = set(KIND_TYPE) - seen
+    if missing:
+        rep.violation("R1", "system.System.from_file", "%s:%d" % (rel, inner.lineno), "no path of the child loop builds %s" % sorted(missing), "kinds unreachable %s" % sorted(missing))
+    rep.floor("R1-paths", len(seen), 9)
+
+
+def writer_partition(model, rep):
+    """save(): every component is written under exactly one key - below its source unless it is the mux or below the mux,
+    and the mux with everything below it in the mux's own block"""
+    rel = model.rel("system")
+    save = model.own_method("System", "save")
+    where = "%s:%d" % (rel, save.lineno)
+    ok = True
+    pm = [x for x in ast.walk(save) if isinstance(x, ast.Assign) and isinstance(x.targets[0], ast.Name) and ast.unparse(x.value) == "self._get_pmux()"]
+    if len(pm) != 1:
+        raise AnalysisError("save(): mux index not found")
+    PX = pm[0].targets[0].id
+    desc = [x for x in ast.walk(save) if isinstance(x, ast.Assign) and isinstance(x.targets[0], ast.Name) and ast.unparse(x.value).replace(" ", "") == "rx.descendants(self._g,%s)" % PX]
+    if len(desc) != 1:
+        raise AnalysisError("save(): descendants of the mux not computed")
+    DX = desc[0].targets[0].id
+    par = getattr(desc[0], "_parent", None)
+    if not (isinstance(par, ast.If) and ast.unparse(par.test).replace(" ", "") in ("%s!=-1" % PX, "-1!=%s" % PX)):
+        ok = False
+        rep.violation("R3", "system.System.save", "%s:%d" % (rel, desc[0].lineno), "the components below the mux are not collected exactly when a mux exists", "mux descendants guard")
+    filt = [x for x in ast.walk(save) if isinstance(x, ast.If) and DX in {n.id for n in ast.walk(x.test) if isinstance(n, ast.Name)} and x is not par]
+    if len(filt) != 1:
+        raise AnalysisError("save(): the source-tree filter is not found once")
+    lp = getattr(filt[0], "_parent", None)
+    cv = lp.target.id if isinstance(lp, ast.For) and isinstance(lp.target, ast.Name) else None
+    from ..rules.c19 import cond_formula, equiv
+    from ..summ import Sym
+    env = {cv: Sym(("name", "C")), PX: Sym(("name", "PX")), DX: Sym(("name", "DX"))}
+    got = cond_formula(filt[0].test, env)
+    want = cond_formula(ast.parse("C != PX and C not in DX", mode="eval").body, {"C": Sym(("name", "C")), "PX": Sym(("name", "PX")), "DX": Sym(("name", "DX"))})
+    if cv is None or not equiv(got, want):
+        ok = False
+        from ..guards import show_f
+        rep.violation("R3", "system.System.save", "%s:%d" % (rel, filt[0].lineno), "below a source a component is written when %s, expected: it is neither the mux nor below the mux (else it is written twice or not at all)" % show_f(got), "source tree filter")
+    blocks = [x for x in ast.walk(save) if isinstance(x, ast.If) and x is not par and ast.unparse(x.test).replace(" ", "") in ("%s!=-1" % PX, "-1!=%s" % PX)
+              and any(isinstance(c, ast.Call) and ast.unparse(c).replace(" ", "") == "self._get_childs_tree(%s)" % PX for c in ast.walk(x))]
+    if len(blocks) != 1:
+        ok = False
+        rep.violation("R3", "system.System.save", where, "the mux and its subtree are not written in a block of their own exactly when a mux exists", "mux block")
+    dump = [c for c in ast.walk(save) if isinstance(c, ast.Call) and ast.unparse(c.func) == "json.dump"]
+    if len(dump) != 1:
+        ok = False
+        rep.violation("R3", "system.System.save", where, "the document is not written with json.dump exactly once", "dump")
+    rep.instance("R3", "system.System.save writes every component under exactly one key", where, ok)
+
+
+class _RootHooks(_RdHooks):
+    def loop(self, sm, node, st):
+        return [(st, None)]      # the child loop is read by reader_paths
+
+
+def root_paths(model, rep):
+    """from_file, top level: a SOURCE record builds a Source (the first one creates the system), any other top-level record the mux"""
+    from ..summ import Summarizer, Sym
+    from ..guards import Ctx, literals
+    from ..terms import Unsupported
+    rel = model.rel("system")
+    fn = model.own_method("System", "from_file")
+    outer = None
+    for lp in fn.body:
+        if isinstance(lp, ast.For) and any(isinstance(c, ast.Call) and isinstance(c.func, ast.Name) and c.func.id == "PMux" for c in ast.walk(lp)):
+            outer = lp
+    if outer is None or not isinstance(outer.target, ast.Name):
+        raise AnalysisError("from_file: top-level record loop not found")
+    it = ast.unparse(outer.iter).replace(" ", "")
+    ent = [x.targets[0].id for x in ast.walk(fn) if isinstance(x, ast.Assign) and isinstance(x.targets[0], ast.Name) and ast.unparse(x.value).replace(" ", "").startswith("list(") and ".keys())" in ast.unparse(x.value).replace(" ", "")]
+    ok = True
+    if not ent or it != "range(1,len(%s))" % ent[0]:
+        ok = False
+        rep.violation("R1", "system.System.from_file", "%s:%d" % (rel, outer.lineno), "the top-level records are walked by %s, expected every key after 'system'" % ast.unparse(outer.iter), "record loop domain")
+    sm = Summarizer(_RootHooks(), Ctx())
+    E = outer.target.id
+    try:
+        leaves = sm.summarize_block(outer.body, {E: Sym(("name", "E")), "self": Sym(("name", "self")), "cls": Sym(("name", "cls"))})
+    except Unsupported as e:
+        raise AnalysisError("from_file record loop: %s" % e)
+    kinds = set()
+    for lf in leaves:
+        ctors = [e for e in lf.events if e[0] == "ctor"]
+        lits = {}
+        for g in lf.guards:
+            literals(g, True, lits)
+        is_src = None
+        first = None
+        for k, v in lits.items():
+            if k[0] == "EQ" and "SOURCE" in k[1:]:
+                is_src = v
+            if k[0] in ("ZP", "Z", "EQ") and "Sym('name', 'E')" in repr(k) and "SOURCE" not in repr(k) and "childs" not in repr(k):
+                first = v
+        for _, kind, args, kwargs, line in ctors:
+            kinds.add(kind)
+            if kind == "Source" and first is False and is_src is not True:
+                ok = False
+                rep.violation("R1", "system.System.from_file", "%s:%d" % (rel, line), "a further Source is built for a top-level record that is not saved as SOURCE", "root branch Source")
+            if kind == "PMux" and is_src is not False:
+                ok = False
+                rep.violation("R1", "system.System.from_file", "%s:%d" % (rel, line), "the mux is built for a top-level record saved as SOURCE", "root branch PMux")
+            if kind == "Source":
+                vo = kwargs.get("vo")
+                if is_src is True and not (isinstance(vo, Sym) and vo.key[0] == "call" and vo.key[1] == "_get_mand"):
+                    ok = False
+                    rep.violation("R1", "system.System.from_file", "%s:%d" % (rel, line), "a source's voltage is not read from its saved 'vo'", "root vo")
+    if kinds != {"Source", "PMux"}:
+        raise AnalysisError("from_file: top-level paths build %s" % sorted(kinds))
+    rep.instance("R1", "system.System.from_file top-level records: sources and mux", "%s:%d" % (rel, outer.lineno), ok, "%d paths" % len(leaves))
